@@ -14,7 +14,7 @@ use noodles_bed::{
 use noodles_core::Position;
 use vcore::{Rng, guard, rng::fnv1a};
 
-use crate::{Mon, text::show};
+use crate::{Mon, gff::Hint, text::show};
 
 #[derive(Clone, Debug)]
 pub struct BedDesc {
@@ -74,7 +74,10 @@ fn gen_other(rng: &mut Rng, invalid: &mut Option<&'static str>) -> (Value, Vec<u
     }
 }
 
-pub fn gen_desc(rng: &mut Rng, n: usize) -> BedDesc {
+pub fn gen_desc(rng: &mut Rng, n: usize, hint: Hint) -> BedDesc {
+    if hint != Hint::Random {
+        return gen_shaped(rng, n, hint == Hint::Rich);
+    }
     let mut invalid = None;
     let chrom: Vec<u8> = match rng.below(20) {
         0 => {
@@ -131,11 +134,77 @@ pub fn gen_desc(rng: &mut Rng, n: usize) -> BedDesc {
     BedDesc { chrom, start, end, name, score, strand, other, invalid }
 }
 
+/// Valid records of extreme shape: "rich" = every optional standard field present and enough
+/// other fields to reach BED12 or more; "minimal" = nothing optional, no other fields.
+fn gen_shaped(rng: &mut Rng, n: usize, rich: bool) -> BedDesc {
+    let chrom: Vec<u8> = (0..1 + rng.usize_below(10)).map(|_| CHROM[rng.usize_below(CHROM.len())]).collect();
+    let start = 1 + rng.skewed(250_000_000) as usize;
+    if !rich {
+        return BedDesc { chrom, start, end: None, name: None, score: 0, strand: None, other: Vec::new(), invalid: None };
+    }
+    let mut invalid = None;
+    let k = 12 - n + rng.usize_below(4);
+    let mut other = Vec::new();
+    while other.len() < k {
+        let o = gen_other(rng, &mut invalid);
+        if invalid.take().is_none() {
+            other.push(o);
+        }
+    }
+    BedDesc { chrom, start, end: Some(start + 1 + rng.skewed(100_000) as usize), name: Some(b"feature 1".to_vec()), score: 1 + rng.below(1000) as u16, strand: Some(rng.bool()), other, invalid: None }
+}
+
+/// Fixed adjacency corpus: BED12 line, bare BEDn line, BED12, bare, bare, BED12.
+pub fn corpus(n: usize) -> Vec<BedDesc> {
+    let s = |t: &str| (Value::String(t.into()), t.as_bytes().to_vec());
+    let rich = BedDesc {
+        chrom: b"chr7".to_vec(),
+        start: 127_471_197,
+        end: Some(127_495_720),
+        name: Some(b"Pos 1".to_vec()),
+        score: 960,
+        strand: Some(true),
+        other: [["127471196", "127495720", "255,0,0", "2", "567,488,", "0,3512"].iter().map(|t| s(t)).collect::<Vec<_>>(), (0..6 - n.min(6)).map(|i| s(&format!("x{i}"))).collect()].concat(),
+        invalid: None,
+    };
+    let minimal = BedDesc { chrom: b"chr1".to_vec(), start: 1, end: None, name: None, score: 0, strand: None, other: Vec::new(), invalid: None };
+    let one = BedDesc { other: vec![s("")], ..minimal.clone() };
+    vec![rich.clone(), minimal.clone(), rich.clone(), one, minimal.clone(), minimal, rich]
+}
+
+pub struct BedLine<const N: usize> {
+    pub bytes: Vec<u8>,
+    pub desc: BedDesc,
+    pub want: RecordBuf<N>,
+}
+
+/// First standard/other field in which the lazy reading differs from the description.
+fn desc_diff(n: usize, lz: &BedDesc, d: &BedDesc) -> Option<&'static str> {
+    let lz_text: Vec<&Vec<u8>> = lz.other.iter().map(|o| &o.1).collect();
+    let d_text: Vec<&Vec<u8>> = d.other.iter().map(|o| &o.1).collect();
+    if lz.chrom != d.chrom {
+        Some("chrom")
+    } else if lz.start != d.start {
+        Some("chromStart")
+    } else if lz.end != d.end {
+        Some("chromEnd")
+    } else if n >= 4 && lz.name != d.name {
+        Some("name")
+    } else if n >= 5 && lz.score != d.score {
+        Some("score")
+    } else if n >= 6 && lz.strand != d.strand {
+        Some("strand")
+    } else if lz_text != d_text {
+        Some("other-fields")
+    } else {
+        None
+    }
+}
+
 macro_rules! bed_n {
-    ($fname:ident, $n:literal, $name:expr, $score:expr, $strand:expr) => {
-        pub fn $fname(rng: &mut Rng, mon: &mut Mon) {
+    ($fname:ident, $ffile:ident, $n:literal, $name:expr, $score:expr, $strand:expr) => {
+        pub fn $fname(rng: &mut Rng, mon: &mut Mon, d: BedDesc, file: &mut Vec<BedLine<$n>>) {
             const N: usize = $n;
-            let d = gen_desc(rng, N);
             #[allow(unused_mut)]
             let mut b = RecordBuf::<N>::builder().set_reference_sequence_name(d.chrom.clone()).set_feature_start(Position::try_from(d.start).unwrap());
             if let Some(e) = d.end {
@@ -245,25 +314,7 @@ macro_rules! bed_n {
                 Ok(Err(e)) => mon.v("bed-roundtrip:reader-error", format!("{} : {e}", show(&bytes))),
                 Ok(Ok((lz, owned, rewritten, eof))) => {
                     // description vs lazy accessors
-                    let others_text: Vec<Vec<u8>> = d.other.iter().map(|o| o.1.clone()).collect();
-                    let lz_text: Vec<Vec<u8>> = lz.other.iter().map(|o| o.1.clone()).collect();
-                    let field = if lz.chrom != d.chrom {
-                        Some("chrom")
-                    } else if lz.start != d.start {
-                        Some("chromStart")
-                    } else if lz.end != d.end {
-                        Some("chromEnd")
-                    } else if N >= 4 && lz.name != d.name {
-                        Some("name")
-                    } else if N >= 5 && lz.score != d.score {
-                        Some("score")
-                    } else if N >= 6 && lz.strand != d.strand {
-                        Some("strand")
-                    } else if lz_text != others_text {
-                        Some("other-fields")
-                    } else {
-                        None
-                    };
+                    let field = desc_diff(N, &lz, &d);
                     if let Some(f) = field {
                         mon.v(format!("bed-roundtrip:{f}"), format!("wrote {d:?}\n as {}\n lazy record says {lz:?}", show(&bytes)));
                     }
@@ -278,6 +329,57 @@ macro_rules! bed_n {
                         mon.v("bed-roundtrip:trailing-record", format!("a second read_record returned {eof} on {}", show(&bytes)));
                     }
                     mon.c("bed.records_read_back", 1);
+                    file.push(BedLine { bytes, desc: d, want });
+                }
+            }
+        }
+
+        /// Whole file through ONE reader and ONE reused `Record<N>`: `read_record(&mut same_record)`.
+        pub fn $ffile(rng: &mut Rng, mon: &mut Mon, file: &[BedLine<$n>]) {
+            const N: usize = $n;
+            if file.is_empty() {
+                return;
+            }
+            let mut all = Vec::new();
+            for l in file {
+                all.extend_from_slice(&l.bytes);
+            }
+            let adj = file.windows(2).filter(|w| w[0].desc.other.is_empty() != w[1].desc.other.is_empty()).count();
+            mon.c("bed.file_adjacent_rich_minimal_pairs", adj as u64);
+            let cap = *rng.pick(&[1usize, 2, 3, 7, 64, 4096]);
+            let got = guard::catch(move || -> Result<Vec<(BedDesc, RecordBuf<N>)>, String> {
+                let mut r = bed::io::Reader::<N, _>::new(BufReader::with_capacity(cap, &all[..]));
+                let mut rec = bed::Record::<N>::default();
+                let mut v = Vec::new();
+                while r.read_record(&mut rec).map_err(|e| format!("read_record #{}: {e}", v.len()))? != 0 {
+                    let lz = lazy_desc::<N>(&rec).map_err(|e| format!("record #{}: {e}", v.len()))?;
+                    let owned = RecordBuf::<N>::try_from_feature_record(&rec).map_err(|e| format!("try_from_feature_record #{}: {e}", v.len()))?;
+                    v.push((lz, owned));
+                }
+                Ok(v)
+            });
+            match got {
+                Err(p) => mon.v(format!("bed-file:panic:{}", p.sig), p.message),
+                Ok(Err(e)) => mon.v("bed-file:reader-error", format!("BED{N} file of {} lines through one reused record: {e}", file.len())),
+                Ok(Ok(v)) => {
+                    if v.len() != file.len() {
+                        mon.v("bed-file:read_record:line-count", format!("{} lines written, {} records read", file.len(), v.len()));
+                        return;
+                    }
+                    for (i, ((lz, owned), l)) in v.iter().zip(file).enumerate() {
+                        let prev = i.checked_sub(1).map(|j| show(&file[j].bytes));
+                        if let Some(f) = desc_diff(N, lz, &l.desc) {
+                            mon.v(format!("bed-file:read_record:{f}"), format!("line #{i} {} read into the reused record says {lz:?}; described {:?}; previous line {prev:?}", show(&l.bytes), l.desc));
+                            break;
+                        }
+                        if *owned != l.want {
+                            mon.v("bed-file:owned-ne-written", format!("line #{i} {}: RecordBuf built from the reused lazy record {owned:?} != written {:?}; previous line {prev:?}", show(&l.bytes), l.want));
+                            break;
+                        }
+                    }
+                    mon.c("bed.file_records_compared", v.len() as u64);
+                    mon.c("bed.files_read", 1);
+                    mon.evals += 1;
                 }
             }
         }
@@ -322,11 +424,12 @@ type B4 = bed::feature::record_buf::Builder<4>;
 type B5 = bed::feature::record_buf::Builder<5>;
 type B6 = bed::feature::record_buf::Builder<6>;
 
-bed_n!(run_bed3, 3, |b: B3, _d: &BedDesc| b, |b: B3, _d: &BedDesc| b, |b: B3, _d: &BedDesc| b);
-bed_n!(run_bed4, 4, |b: B4, d: &BedDesc| match &d.name { Some(n) => b.set_name(n.clone()), None => b }, |b: B4, _d: &BedDesc| b, |b: B4, _d: &BedDesc| b);
-bed_n!(run_bed5, 5, |b: B5, d: &BedDesc| match &d.name { Some(n) => b.set_name(n.clone()), None => b }, |b: B5, d: &BedDesc| b.set_score(d.score), |b: B5, _d: &BedDesc| b);
+bed_n!(run_bed3, run_bed3_file, 3, |b: B3, _d: &BedDesc| b, |b: B3, _d: &BedDesc| b, |b: B3, _d: &BedDesc| b);
+bed_n!(run_bed4, run_bed4_file, 4, |b: B4, d: &BedDesc| match &d.name { Some(n) => b.set_name(n.clone()), None => b }, |b: B4, _d: &BedDesc| b, |b: B4, _d: &BedDesc| b);
+bed_n!(run_bed5, run_bed5_file, 5, |b: B5, d: &BedDesc| match &d.name { Some(n) => b.set_name(n.clone()), None => b }, |b: B5, d: &BedDesc| b.set_score(d.score), |b: B5, _d: &BedDesc| b);
 bed_n!(
     run_bed6,
+    run_bed6_file,
     6,
     |b: B6, d: &BedDesc| match &d.name { Some(n) => b.set_name(n.clone()), None => b },
     |b: B6, d: &BedDesc| b.set_score(d.score),
